@@ -64,7 +64,7 @@ impl Property for C18 {
     fn rule(&self) -> &'static str {
         "case = history of 3-25 operations over one Histogram and up to 2 LocalHistograms: start a shared / local timer (<=5 alive), \
          end a chosen live timer by observe_duration / stop_and_record / stop_and_discard / drop (plain, or by the unwinding of a caught panic), on this thread or after moving \
-         it to a freshly spawned thread (joined at once), observe_closure_duration on the shared or a local histogram, local flush / \
+         it to a freshly spawned thread (joined at once), observe_closure_duration on the shared or a local histogram (the closure optionally observes / times / reads the same histogram), local flush / \
          clear / drop, create local. Oracle: count model (shared count and every local's pending count after every operation; +1 \
          exactly for record/drop, +0 for discard; a local timer's observation reaches the shared histogram when the timer dies), \
          returned durations finite and >= 0, and the shared sample sum grows by exactly the returned duration. Non-trivial: >=3 \
@@ -158,20 +158,61 @@ impl Property for C18 {
                     let live: Vec<usize> = locals.iter().enumerate().filter(|(_, l)| l.is_some()).map(|(i, _)| i).collect();
                     if !live.is_empty() && src.chance(128) {
                         let li = live[src.below(live.len())];
-                        let r = locals[li].as_ref().unwrap().observe_closure_duration(|| token);
+                        // the closure may itself use the histogram it is timed on
+                        let body = src.below(5);
+                        let l = locals[li].as_ref().unwrap();
+                        let r = l.observe_closure_duration(|| {
+                            match body {
+                                1 => l.observe(0.0),
+                                2 => l.observe_closure_duration(|| ()),
+                                3 => {
+                                    let _ = l.start_timer().stop_and_record();
+                                }
+                                4 => {
+                                    let _ = l.get_sample_count();
+                                }
+                                _ => {}
+                            }
+                            token
+                        });
                         if r != token {
                             return fail("closure-result-lost", format!("local observe_closure_duration returned {} for {}", r, token));
                         }
-                        pending[li] += 1;
-                        log.push(format!("closure@L{}", li));
+                        // a local timer works on its own clone of the local histogram and delivers to the shared one when it ends
+                        pending[li] += if (1..=2).contains(&body) { 2 } else { 1 };
+                        if body == 3 {
+                            shared_count += 1;
+                            may_grow = true;
+                        }
+                        if body != 0 {
+                            rep.class("closure-uses-its-own-histogram");
+                        }
+                        log.push(format!("closure[body {}]@L{}", body, li));
                     } else {
-                        let r = hist.observe_closure_duration(|| token);
+                        let body = src.below(5);
+                        let r = hist.observe_closure_duration(|| {
+                            match body {
+                                1 => hist.observe(0.0),
+                                2 => hist.observe_closure_duration(|| ()),
+                                3 => {
+                                    let _ = hist.start_timer().stop_and_record();
+                                }
+                                4 => {
+                                    let _ = hist.get_sample_count();
+                                }
+                                _ => {}
+                            }
+                            token
+                        });
                         if r != token {
                             return fail("closure-result-lost", format!("observe_closure_duration returned {} for {}", r, token));
                         }
-                        shared_count += 1;
+                        shared_count += if (1..=3).contains(&body) { 2 } else { 1 };
                         may_grow = true;
-                        log.push("closure".into());
+                        if body != 0 {
+                            rep.class("closure-uses-its-own-histogram");
+                        }
+                        log.push(format!("closure[body {}]", body));
                     }
                 }
                 12 => {
